@@ -86,7 +86,7 @@ void *vp_alloc(size_t size) {
 typedef struct S_class_frg__hash_map map_t;
 typedef struct S_struct_tracked trk;
 typedef struct S_class_frg__hash_map_unsigned_long__tracked__vp_hash_functor__vp_allocator___iterator iter_t;
-#define VP_PRE(c) VP_PRE_OR(c, goto skip)
+#define VP_PRE(c) VP_PRE_OR(c, return 0)
 map_t map;
 uint64_t KV[U]; uint32_t H[U];
 int present[U]; int32_t rval[U];
@@ -109,6 +109,28 @@ static void check_all(void) {
 	VP_ASSERT(ht_size(&map) == (uint64_t)cnt, "size() differs from the number of entries of the reference map");
 	VP_ASSERT((ht_empty(&map) != 0) == (cnt == 0), "empty() differs from the reference");
 }
+uint64_t rcap;                     /* reference capacity inside the bound of the CBMC runs: 0 until the first entry is created, 10 afterwards */
+static int do_op(int op, int ki, int v) {
+	uint64_t k = keyat(ki); int pres = 0; int32_t rv = 0;
+	for(int u = 0; u < U; u++) if(u == ki) { pres = present[u]; rv = rval[u]; }
+	switch(op) {
+	case 0: VP_PRE(!pres); ht_insert_copy(&map, k, (uint32_t)v); for(int u = 0; u < U; u++) if(u == ki) { present[u] = 1; rval[u] = v; } rcap = 10; break;
+	case 1: VP_PRE(!pres); ht_insert_move(&map, k, (uint32_t)v); for(int u = 0; u < U; u++) if(u == ki) { present[u] = 1; rval[u] = v; } rcap = 10; break;
+	case 2: { trk *p = ht_index(&map, k);
+		VP_ASSERT(p != 0 && p->f1 == VP_ALIVE, "operator[] must return a live value");
+		VP_ASSERT((int32_t)p->f0 == (pres ? rv : 0), "operator[] returns the stored value of a present key and a default value for an absent key");
+		p->f0 = (uint32_t)v;                                      /* map[k] = v */
+		for(int u = 0; u < U; u++) if(u == ki) { present[u] = 1; rval[u] = v; } rcap = 10; } break;
+	case 3: { trk *p = ht_get(&map, k); VP_ASSERT((p != 0) == pres, "get() locates exactly the present keys"); if(p) VP_ASSERT((int32_t)p->f0 == rv, "get() value"); } break;
+	case 4: { uint32_t out = 0; int got = ht_remove(&map, k, &out);
+		VP_ASSERT((got != 0) == pres, "remove() returns a value exactly for present keys"); if(got) VP_ASSERT((int32_t)out == rv, "remove() returns the stored value");
+		for(int u = 0; u < U; u++) if(u == ki) present[u] = 0; } break;
+	case 5: { iter_t it, en; ht_find(&map, k, &it); ht_end(&map, &en);
+		VP_ASSERT((ht_it_eq(&it, &en) == 0) == pres, "find() locates exactly the present keys");
+		if(pres && !ht_it_eq(&it, &en)) { VP_ASSERT(ht_it_key(&it) == k, "find(): key"); VP_ASSERT((int32_t)ht_it_val(&it)->f0 == rv, "find(): value"); } } break;
+	}
+	return 1;
+}
 void harness(void) {
 	int nops = 0;
 	for(int u = 0; u < U; u++) {
@@ -130,6 +152,7 @@ void harness(void) {
 		VP_ASSUME(a != b);
 		ht_ctor_il2(&map, keyat(a), (uint32_t)va, keyat(b), (uint32_t)vb);
 		for(int u = 0; u < U; u++) { if(u == a) { present[u] = 1; rval[u] = va; } if(u == b) { present[u] = 1; rval[u] = vb; } }
+		rcap = 10;
 	}
 	check_all();
 	for(int step = 0; step < K; step++) {
@@ -137,26 +160,23 @@ void harness(void) {
 		VP_NATIVE_ONLY(if(getenv("VP_RANDOM")) { op = (unsigned)op % 6; ki = (unsigned)ki % U; })
 		VP_ASSUME(op >= 0 && op <= 5 && ki >= 0 && ki < U);
 		new_phase(step + 1);
-		uint64_t k = keyat(ki); int pres = 0; int32_t rv = 0;
-		for(int u = 0; u < U; u++) if(u == ki) { pres = present[u]; rv = rval[u]; }
-		switch(op) {
-		case 0: VP_PRE(!pres); ht_insert_copy(&map, k, (uint32_t)v); for(int u = 0; u < U; u++) if(u == ki) { present[u] = 1; rval[u] = v; } break;
-		case 1: VP_PRE(!pres); ht_insert_move(&map, k, (uint32_t)v); for(int u = 0; u < U; u++) if(u == ki) { present[u] = 1; rval[u] = v; } break;
-		case 2: { trk *p = ht_index(&map, k);
-			VP_ASSERT(p != 0 && p->f1 == VP_ALIVE, "operator[] must return a live value");
-			VP_ASSERT((int32_t)p->f0 == (pres ? rv : 0), "operator[] returns the stored value of a present key and a default value for an absent key");
-			p->f0 = (uint32_t)v;                                      /* map[k] = v */
-			for(int u = 0; u < U; u++) if(u == ki) { present[u] = 1; rval[u] = v; } } break;
-		case 3: { trk *p = ht_get(&map, k); VP_ASSERT((p != 0) == pres, "get() locates exactly the present keys"); if(p) VP_ASSERT((int32_t)p->f0 == rv, "get() value"); } break;
-		case 4: { uint32_t out = 0; int got = ht_remove(&map, k, &out);
-			VP_ASSERT((got != 0) == pres, "remove() returns a value exactly for present keys"); if(got) VP_ASSERT((int32_t)out == rv, "remove() returns the stored value");
-			for(int u = 0; u < U; u++) if(u == ki) present[u] = 0; } break;
-		case 5: { iter_t it, en; ht_find(&map, k, &it); ht_end(&map, &en);
-			VP_ASSERT((ht_it_eq(&it, &en) == 0) == pres, "find() locates exactly the present keys");
-			if(pres && !ht_it_eq(&it, &en)) { VP_ASSERT(ht_it_key(&it) == k, "find(): key"); VP_ASSERT((int32_t)ht_it_val(&it)->f0 == rv, "find(): value"); } } break;
+		int done = 0;
+#ifdef __CPROVER__
+		/* Concretisation (no-op writes): in a merged history _size/_capacity are symbolic expressions, so rehash() would request a block of
+		 * symbolic size (intractable, DESIGN 2.4 (ii)).  The step is therefore executed under a case split over the reference size; in each case
+		 * the two fields are first ASSERTED to hold the reference values and then overwritten with the same values as constants. */
+		int cnt = 0; for(int u = 0; u < U; u++) cnt += present[u];
+		VP_ASSERT(cnt <= step + 2 && (rcap == 0 || rcap == 10) && (rcap != 0 || cnt == 0), "harness: reference size/capacity outside the case split");
+		for(int cs = 0; cs <= step + 2; cs++) for(int cc = 0; cc <= (cs == 0 ? 10 : 0); cc += 10) if(cnt == cs && rcap == (cs == 0 ? (uint64_t)cc : 10u)) {
+			uint64_t capc = cs == 0 ? (uint64_t)cc : 10u;
+			VP_ASSERT(map.f4 == (uint64_t)cs && map.f3 == capc, "_size / _capacity differ from the reference (size, capacity in {0,10})");
+			map.f4 = (uint64_t)cs; map.f3 = capc;
+			done = do_op(op, ki, v);
 		}
-		check_all(); nops++;
-		if(0) { skip: ; }
+#else
+		done = do_op(op, ki, v);
+#endif
+		if(done) { check_all(); nops++; }
 		VP_OBSERVE(ht_size(&map) * 10 + op);
 	}
 	ht_dtor(&map);
